@@ -463,7 +463,9 @@ def base_tree(rng, pools, nmax=25):
 
 
 CATS = ['S', 'NP', 'VP', 'SBAR', 'WHNP', 'PP', 'ADVP', 'SQ']
-TRACE_CATS = ['*T*', '*', '*ICH*', '*U*', '*?*', '0', '*EXP*', '*RNR*']
+TRACE_CATS = ['*T*', '*', '*ICH*', '*U*', '*?*', '0', '*EXP*', '*RNR*',
+              # labels are compared as they are spelled
+              '*t*', '*PRO*', '*pro*', '*Exp*']
 
 
 def trace_tree(rng):
